@@ -50,6 +50,16 @@ class Unsupported(Exception):
     pass
 
 
+def const_value(v):
+    """the "value" of a ConstantExpr in clang's JSON: "true" / "false" or a decimal number"""
+    if v in ("true", "false"):
+        return 1 if v == "true" else 0
+    try:
+        return int(v)
+    except (TypeError, ValueError):
+        raise Unsupported(f"constant {v!r}")
+
+
 def registry():
     """(lean name, clang filter name, includes, forcing expression, template argument types of the wanted specialisation)"""
     R = []
@@ -81,6 +91,10 @@ def registry():
         for v in UNS:
             R.append((f"from_int_{u}_{v}", "from_int", inc("enum/from_int"), f"fcppt::enum_::from_int<verif_enum_{u}>({CNAME[v]}{{}})", [f"enum:{u}", v, "void"]))
     # ---- second generation (ext/C06): everything below is additive
+    # enums whose underlying type is signed (the default `int`, `signed char`): the size type is the unsigned counterpart
+    for u in ["i8", "i32"]:
+        for v in UNS:
+            R.append((f"from_int_{u}_{v}", "from_int", inc("enum/from_int"), f"fcppt::enum_::from_int<verif_enum_{u}>({CNAME[v]}{{}})", [f"enum:{u}", v, "void"]))
     # math::div on the narrow types (result type int) and on mixed operand types (usual arithmetic conversions)
     for t in ["u8", "i8", "u16", "i16"]:
         R.append((f"div_{t}", "div", inc("math/div"), f"fcppt::math::div({CNAME[t]}{{}}, {CNAME[t]}{{}})", [t, t]))
@@ -129,6 +143,8 @@ enum class verif_enum_u8 : std::uint8_t { a, b, c, fcppt_maximum = c };
 enum class verif_enum_u16 : std::uint16_t { a, b, c, fcppt_maximum = c };
 enum class verif_enum_u32 : std::uint32_t { a, b, c, fcppt_maximum = c };
 enum class verif_enum_u64 : std::uint64_t { a, b, c, fcppt_maximum = c };
+enum class verif_enum_i8 : std::int8_t { a, b, c, fcppt_maximum = c };
+enum class verif_enum_i32 { a, b, c, fcppt_maximum = c };
 """
 
 
@@ -175,7 +191,7 @@ def norm_type(q):
     m = re.match(r"(?:class |struct )?fcppt::optional::object<(.*)>$", q)
     if m:
         return "opt:" + norm_type(m.group(1))
-    m = re.match(r"(?:enum )?verif_enum_(u\d+)$", q)
+    m = re.match(r"(?:enum )?verif_enum_([ui]\d+)$", q)
     if m:
         return "enum:" + m.group(1)
     m = re.match(r"(?:class |struct )?fcppt::bit::mask<(.*)>$", q)
@@ -295,7 +311,11 @@ class Emitter:
             return
         self.defs[lean_name] = None     # reserve (recursion guard)
         ctx = Fn(self, f, lean_name)
-        text = ctx.emit()
+        try:
+            text = ctx.emit()
+        except Exception:
+            self.defs.pop(lean_name, None)      # no half-translated entries: every later use fails again
+            raise
         self.defs[lean_name] = text
         self.order.append(lean_name)
 
@@ -500,6 +520,11 @@ class Fn:
                 v = self.expr(s["inner"][0], env, out, want=self.ret_type if ret is True else None)
                 out.append(f"pure {v}")
                 return out
+            elif k == "IfStmt" and s.get("isConstexpr") and self.strip_const(s["inner"][0]) is not None:
+                # `if constexpr`: only the selected branch exists in this instantiation
+                inner = s["inner"]
+                taken = inner[1] if self.strip_const(inner[0]) else (inner[2] if len(inner) > 2 else None)
+                return out + self.block(([taken] if taken is not None else []) + rest, env, ret)
             elif k == "IfStmt":
                 inner = s["inner"]
                 cond, then = inner[0], inner[1]
@@ -567,6 +592,14 @@ class Fn:
         if ret:
             raise Unsupported("control reaches end of non-void block in " + self.name)
         return out
+
+    def strip_const(self, n):
+        """value of an already evaluated constant condition, or None"""
+        while n.get("kind") in ("ParenExpr", "ExprWithCleanups"):
+            n = n["inner"][-1]
+        if n.get("kind") == "ConstantExpr" and "value" in n:
+            return const_value(n["value"]) != 0
+        return None
 
     def ignorable(self, s):
         return s.get("kind", "").endswith("Comment")
@@ -717,6 +750,10 @@ class Fn:
     def expr(self, n, env, out, want=None, discard=False):
         n0 = n
         k = n.get("kind")
+        if k == "ConstantExpr" and "value" in n and norm_type(qual(n)) in ALL + ["bool"]:
+            # a constant expression clang has already evaluated (`if constexpr` conditions, template arguments)
+            v = const_value(n["value"])
+            return ("true" if v else "false") if norm_type(qual(n)) == "bool" else f"({v} : Int)"
         if k in ("ParenExpr", "ExprWithCleanups", "MaterializeTemporaryExpr", "CXXBindTemporaryExpr", "ConstantExpr"):
             return self.expr(n["inner"][-1], env, out, want, discard)
         if k == "InitListExpr":
@@ -983,7 +1020,7 @@ class Fn:
             return f"(CInt.conv {ity(rt)} {self.expr(args[0], env, out)})"
         if name in ("int_to_enum", "enum_to_int", "enum_to_underlying") and len(args) == 1:
             v = self.expr(args[0], env, out)
-            return v if name == "int_to_enum" else f"(CInt.conv {ity(rt)} {v})"
+            return f"(CInt.conv {ity(rt)} {v})"      # int_to_enum: static_cast to an enum with a fixed underlying type
         if name == "max" and not args:
             return f"({ity(rt)}).hi"
         if name == "min" and not args:
@@ -1017,15 +1054,17 @@ class Fn:
 
 PRIMS = {"literal", "size", "to_signed", "to_unsigned", "int_to_enum", "enum_to_int", "make_if", "bind", "map", "is_zero", "abs"}
 # primitives whose body is translated whenever the referenced instantiation is in the dumps (the built-in meaning is the fallback)
-BODY_PRIMS = {"size", "to_signed", "to_unsigned"}
+BODY_PRIMS = {"size", "to_signed", "to_unsigned", "int_to_enum"}
+# dumped in addition to the registry's filters (callees whose bodies are translated)
+EXTRA_FILTERS = ["fcppt::cast::int_to_enum"]
 
 
 def translate(repo, only=None):
     reg = registry()
     if only:
         reg = [r for r in reg if re.search(only, r[0])]
-    includes = sorted({h for r in reg for h in r[2]})
-    filters = sorted({r[1] for r in reg} | {"truncation_check"})
+    includes = sorted({h for r in reg for h in r[2]} | {"fcppt/cast/int_to_enum.hpp"})
+    filters = sorted({r[1] for r in reg} | {"truncation_check"} | set(EXTRA_FILTERS))
     tmp = tempfile.mkdtemp(prefix="cxx2lean_")
     tu = os.path.join(tmp, "tu.cpp")
     with open(tu, "w") as f:
@@ -1066,6 +1105,8 @@ def translate(repo, only=None):
         try:
             em.names[found[lean_name]["id"]] = lean_name
             em.function(found[lean_name], lean_name)
+            if not em.defs.get(lean_name):
+                raise Unsupported("recursive definition")
             done.append(lean_name)
         except Unsupported as e:
             errors[lean_name] = "unsupported: " + str(e)
